@@ -63,7 +63,7 @@ def run(R):
     R.rule = RULE
     rng = R.rng
     quick = R.tier == "quick"
-    n = 36 if quick else 1200
+    n = 90 if quick else 1500
     for i in range(n):
         _one(R, rng, i)
 
